@@ -127,7 +127,7 @@ prop(
 
 prop(
     "C19",
-    lean_modules=["BloomVerif.Lemmas.Format", "BloomVerif.Bridge.PlanReads", "BloomVerif.Bridge.Scanner", "BloomVerif.Bridge.ScannerList", "BloomVerif.Bridge.Held", "BloomVerif.Props.C19"],
+    lean_modules=["BloomVerif.Lemmas.Format", "BloomVerif.Bridge.PlanReads", "BloomVerif.Bridge.Scanner", "BloomVerif.Bridge.ScannerList", "BloomVerif.Bridge.Held", "BloomVerif.Bridge.Chunk", "BloomVerif.Props.C19"],
     technique="Lean 4 proof over all int64 framing values (regenerated wrapping validation = exact model, acceptance implies in-bounds, chunk and slice bounds, scanner bounds) + differential validators + mutation fuzz",
     design_ref="DESIGN.md section 4 C19",
     text="Machine-checked for every int64 value of the framing fields: the validation regenerated from the Go source never overflows and equals the exact-arithmetic model; accepted metadata keeps the region, every row-data extent and "
